@@ -7,6 +7,16 @@ ALL = [f"C{i:02d}" for i in range(1, 21)]
 HOOK_COMMITS = subprocess.run(["git", "-C", "/repo", "log", "--format=%h %s", "--grep", "^verif hook"], capture_output=True, text=True).stdout.strip().splitlines()
 
 CHECKS = {
+ "C11": dict(
+   category="exploration", design="DESIGN.md §4 C11",
+   technique="grammar-based generation of directive ASTs printed to strings; reference evaluator on the AST (most specific prefix, replace-on-duplicate, span scope with value matchers); differential Targets vs EnvFilter vs reference; Display->parse round trip; span-scope histories",
+   text="Static tables (1-6 directives over 9 targets with shared prefixes, levels by name in any case or digit, bare level/target, duplicates in any order) are parsed by Targets and EnvFilter, rebuilt programmatically, round-tripped through Display, and evaluated on 90 static metadata through would_enable and through delivery with macro-style gating as global layer and as per-layer filter. Span-scoped cases combine static and `target[span{field=value}]=level` directives with histories of span open (with values) / record / enter / exit / events / probe spans, also against the filter reparsed from its Display output; an event must be enabled exactly when the statics or an entered matching span allow its level.",
+   note="F8's trigger region (directive level below the span's level) is avoided by construction (context spans are ERROR). Field-list directives go to EnvFilter only; Targets' handling of them is recorded as open findings F9/F13 replayed from raw strings. Re-recording a field and records after entering are outside the documented behaviour and not generated. Found and fixed the Directive multi-field parsing bug."),
+ "C12": dict(
+   category="exploration", design="DESIGN.md §4 C12",
+   technique="proptest-generated reload histories in a fresh child process on two stepped threads plus a helper thread; oracle = reference semantics of the value that is current by the model; hook-driven emission between unlock and cache rebuild",
+   text="A stack with one reloadable Option<filter> (global layer inside/outside, or per-layer filter) and an unfiltered neighbour is driven through macro callsites (15 level x target) on two threads interleaved with reload/modify between LevelFilter, Targets, static EnvFilter and None. After each reload every emission (first hit or cached, either thread) must be delivered iff the new value accepts it, the neighbour must be unaffected by a per-layer filter, LevelFilter::current() must not be below what the new value accepts (exact for a lone LevelFilter). An emission forced between write-unlock and cache rebuild (hook), or while modify holds the lock, must be judged by the old or the new value. After the collector is dropped reload must return an is_dropped error.",
+   note="Racing is explored at one hook point and one lock-held window only (sequentially consistent, hook granularity). Trusts the cfg-guarded yield point in reload::Handle::modify."),
  "C09": dict(
    category="exploration", design="DESIGN.md §4 C09",
    technique="proptest-generated wrapped stacks and Collect-API workloads; differential (wrapped vs wrapper-stripped stack, per-leaf logs with normalised ids) plus exactly-once / inner-before-outer / veto invariants on the stripped run",
